@@ -137,3 +137,66 @@ def allot_apalache(ctx, vectors):
         if not ok:
             raise Infra("Apalache refuted the allotment lemma for %s/%s (specification error)" % (nums, L))
         ctx.cov["obligations_unbounded_n"] = ctx.cov.get("obligations_unbounded_n", 0) + 1
+
+
+def split_pipeline(ctx, mode, trace_path, prop, tag):
+    """TLC prints the state at every split point; the harness runs prefix/suffix; TLC judges the relation"""
+    cfg = "SplitTrace_%s.cfg" % prop
+    r1 = ctx.tlc_trace("MachineTrace", "MachineTrace_SPLIT.cfg", trace_path, label="TLC prints the specification state at every split point (%s)" % tag)
+    sp = [x[6:] for x in r1["printed"] if x.startswith("SPLIT ")]
+    spath = trace_path + ".splits"
+    open(spath, "w").write("\n".join(sp) + ("\n" if sp else ""))
+    opath = trace_path + ".rel"
+    summ = ctx.vh_json(["split", mode, trace_path, spath, opath])
+    if summ["splits"] == 0:
+        return summ, [], opath
+    r2 = ctx.tlc_trace("SplitTrace", cfg, opath, label="TLC judges whole = prefix ++ suffix (%s)" % tag)
+    return summ, [v for v in r2["viols"] if v["prop"] == prop], opath
+
+
+def split_batches(ctx, corpus, mode, n, batches):
+    prop = ctx.prop
+    ctx.build()
+
+    def one(b):
+        path = os.path.join(ctx.work, "trace_%s_%d.ndjson" % (corpus, b))
+        ctx.vh_json(["sem", corpus, ctx.seed * 1000 + b, n, path])
+        return (path,) + split_pipeline(ctx, mode, path, prop, "corpus=%s batch=%d" % (corpus, b))
+
+    with cf.ThreadPoolExecutor(max_workers=6) as ex:
+        results = list(ex.map(one, range(batches)))
+    seen = set()
+    for path, summ, viols, opath in results:
+        ctx.cov["evaluations"] += summ["splits"]
+        ctx.cov["distinct_nontrivial"] += summ["nontrivial"]
+        ctx.cov["traces_validated_against_impl"] += summ["cases"]
+        for s in summ.get("samples") or []:
+            if len(ctx.cov["samples"]) < 3:
+                ctx.cov["samples"].append(s)
+        if not viols:
+            continue
+        cases = group_cases(path)
+        for v in viols:
+            if (v["what"]) in seen or len(ctx.violations) >= 3:
+                continue
+            hits, rp = confirm_split(ctx, mode, prop, cases[v["id"]][0])
+            if hits:
+                seen.add(v["what"])
+                ctx.add_violation("%s: %s (split after statement %s) | script: %s" % (prop, v["what"], v.get("k"), cases[v["id"]][0]["text"].replace("\n", " ")[:300]), rp)
+            else:
+                raise Infra("candidate violation did not reproduce: %s" % v)
+
+
+def confirm_split(ctx, mode, prop, case):
+    rp = dict(kind="split", mode=mode, property=prop, case={k: case[k] for k in ("id", "corpus", "text", "rawvars", "bal", "meta", "flagovd", "varvals")})
+    path = os.path.join(ctx.work, "cand%d.json" % len(os.listdir(ctx.work)))
+    json.dump(dict(rp, kind="sem"), open(path, "w"))
+    fresh = ctx.vh_json(["rerun", path])["lines"]
+    tpath = path + ".ndjson"
+    with open(tpath, "w") as f:
+        for l in fresh:
+            f.write(json.dumps(l) + "\n")
+    summ, viols, opath = split_pipeline(ctx, mode, tpath, prop, "confirmation")
+    rp["relation_lines"] = read_ndjson(opath) if os.path.exists(opath) else []
+    rp["tlc"] = viols
+    return viols, rp
